@@ -102,6 +102,9 @@ impl Runtime {
             }
             _ => Ok(KValue::Null),
         });
+        let mut koto = koto;
+        // a function exported by another chunk: a bare non-local id for every later script
+        let _ = koto.compile_and_run("export ef = |v| (v, 'ef')\nexport ef2 = |v, w| (v, w, 'ef2')\nnull");
         Runtime { koto, trace, runs: 0 }
     }
 
@@ -1870,6 +1873,56 @@ fn gen_late(rng: &mut Rng) -> LateCase {
     LateCase { fns, start: rng.below(n_f), n: rng.range(0, 5), generator: rng.chance(1, 5) }
 }
 
+
+// ------------------------------------------------------------------------------------------------
+// family `pipe` — `a -> f` ≡ `f(a)` for every callee kind × every destination of the result
+//
+// callee: local function, harness prelude function, core prelude function, wildcard-imported function,
+// function exported by another chunk, chain `m.f`, each also with an extra argument (`a -> f b` ≡ `f(a, b)`);
+// destination: fresh variable, the piped variable itself, another live variable, unused, element of a
+// tuple / list literal, argument of a call, operand. Oracle (D): the same script with the call written
+// `f(a[, b])` gives the same result and trace.
+
+fn gen_pipe(rng: &mut Rng) -> (String, String, String) {
+    // (callee text, extra arg, value kind)
+    let callees: &[(&str, Option<&str>, u8)] = &[
+        ("lf", None, 0), ("lf2", Some("5"), 0),
+        ("emit", None, 0),
+        ("size", None, 1),
+        ("to_uppercase", None, 2), ("contains", Some("'a'"), 2),
+        ("ef", None, 0), ("ef2", Some("6"), 0),
+        ("m.f", None, 0), ("m.f2", Some("7"), 0), ("a2.m.f", None, 0),
+        ("string.to_uppercase", None, 2),
+    ];
+    let (callee, extra, vk) = callees[rng.below(callees.len())];
+    let val = match vk {
+        1 => ["(1, 2, 3)", "[4, 5]", "'abc'", "{ka: 1}"][rng.below(4)].to_string(),
+        2 => ["'abc'", "'xay'", "''"][rng.below(3)].to_string(),
+        _ => ["3", "'s'", "(1, 2)", "[9]", "null", "true"][rng.below(6)].to_string(),
+    };
+    let piped = match extra { Some(e) => format!("x -> {} {}", callee, e), None => format!("x -> {}", callee) };
+    let direct = match extra { Some(e) => format!("{}(x, {})", callee, e), None => format!("{}(x)", callee) };
+    let dest = rng.below(9);
+    let body = |call: &str| -> String {
+        match dest {
+            0 => format!("r = {}\n(x, r)\n", call),
+            1 => format!("x = {}\nx\n", call),
+            2 => format!("y = 0\ny = {}\n(x, y)\n", call),
+            3 => format!("{}\nx\n", call),
+            4 => format!("t = (({}), 7)\n(x, t)\n", call),
+            5 => format!("l = [0, ({})]\n(x, l)\n", call),
+            6 => format!("r = lf(({}))\n(x, r)\n", call),
+            7 => format!("y = 1\nx = {}\ny = {}\n(x, y)\n", call, call),
+            _ => format!("r = (({}), ({}))\n(x, r)\n", call, call),
+        }
+    };
+    let prefix = format!(
+        "from string import *\nlf = |v| (v, 'lf')\nlf2 = |v, w| (v, w, 'lf2')\nm = {{f: |v| (v, 'm.f'), f2: |v, w| (v, w, 'm.f2')}}\na2 = {{m}}\nx = {}\n",
+        val
+    );
+    (format!("{}{}", prefix, body(&piped)), format!("{}{}", prefix, body(&direct)), format!("callee={} dest={}", callee, dest))
+}
+
 // ------------------------------------------------------------------------------------------------
 // family `share`
 
@@ -3498,7 +3551,7 @@ fn main() {
     kvh::quiet_panics();
     let args = Args::parse();
     let mut rep = Report::new("C02", &args);
-    rep.rule = "case = one script + the same abstract case for the model. bind: function definition (0-3 required, 0-3 optional with tick()-wrapped defaults, variadic?, 0-3 captures reassigned after creation, 0-3 ids exported after the function was created and read by the body directly or through a thunk call (late-bound through the module's exports), self reference, `_`, nested tuple patterns depth<=2 with leading/trailing ellipsis, map patterns {k}, {k as v}, {k as _}) x call form (paren, paren-free, piped, instance, generator call) x argument count arity-2..arity+2 x 0-2 (thorough 0-3) packed arguments of length 0-3 at any position (count grid enumerated exhaustively for plain parameters, random for rich ones); cap: random scripts with nested (1-3 deep)/recursive closures, assignment targets read anywhere in the right-hand side; capx: random function and generator bodies over the wider syntax (block if/for/while/until, switch, match with binding patterns and guards, inline if, string interpolation, tuples, assignments nested in expressions, multi-assignment with {x} and {k as x} targets reading same-named outer variables, nested closures 1-3 deep): accessed_non_locals of the real parser = Model/CaptureX.lean, declaratively free names are captured, closure run = parameter run; routes: every definition is also reached as a callback of core-library functions that pass a pair (map.each/keep/any/find/all, enumerate.each/keep, zip.each/keep; temporary-tuple fast path for a single unpacked-tuple parameter) and through the host API (call_function with CallArgs::Single/Separate/AsTuple, container sizes fixed part -1/0/+1), directed single-tuple-parameter definitions with fixed part 1-3 x ellipsis none/first/last; dup: argument lists in which one name is used twice, every pair of positions (top level, nested tuple, rest..., {x}, {k as x}, variadic, with defaults) -> compile error; repeated `_q` accepted; late: 2-4 exported functions with 0-3 default arguments and 0-3 captures each that call functions exported later than themselves (mutually recursive countdowns, also consumed by a generator), result and tick trace computed directly from the guide; share: random histories over int/list variables, closures, defaults; gen: random generator bodies x 5 consumers. distinct = distinct request lines; non-trivial = bind: at least one parameter or capture, cap: defines a closure, share: calls a closure, gen: all".into();
+    rep.rule = "case = one script + the same abstract case for the model. bind: function definition (0-3 required, 0-3 optional with tick()-wrapped defaults, variadic?, 0-3 captures reassigned after creation, 0-3 ids exported after the function was created and read by the body directly or through a thunk call (late-bound through the module's exports), self reference, `_`, nested tuple patterns depth<=2 with leading/trailing ellipsis, map patterns {k}, {k as v}, {k as _}) x call form (paren, paren-free, piped, instance, generator call) x argument count arity-2..arity+2 x 0-2 (thorough 0-3) packed arguments of length 0-3 at any position (count grid enumerated exhaustively for plain parameters, random for rich ones); cap: random scripts with nested (1-3 deep)/recursive closures, assignment targets read anywhere in the right-hand side; capx: random function and generator bodies over the wider syntax (block if/for/while/until, switch, match with binding patterns and guards, inline if, string interpolation, tuples, assignments nested in expressions, multi-assignment with {x} and {k as x} targets reading same-named outer variables, nested closures 1-3 deep): accessed_non_locals of the real parser = Model/CaptureX.lean, declaratively free names are captured, closure run = parameter run; routes: every definition is also reached as a callback of core-library functions that pass a pair (map.each/keep/any/find/all, enumerate.each/keep, zip.each/keep; temporary-tuple fast path for a single unpacked-tuple parameter) and through the host API (call_function with CallArgs::Single/Separate/AsTuple, container sizes fixed part -1/0/+1), directed single-tuple-parameter definitions with fixed part 1-3 x ellipsis none/first/last; dup: argument lists in which one name is used twice, every pair of positions (top level, nested tuple, rest..., {x}, {k as x}, variadic, with defaults) -> compile error; repeated `_q` accepted; pipe: `a -> f [b]` against `f(a[, b])` for callees local / harness prelude / core prelude / wildcard-imported / exported by another chunk / chain m.f / module path x 9 destinations of the result (fresh variable, the piped variable itself, another live variable, unused, tuple and list element, call argument, twice in a row, twice in one expression); late: 2-4 exported functions with 0-3 default arguments and 0-3 captures each that call functions exported later than themselves (mutually recursive countdowns, also consumed by a generator), result and tick trace computed directly from the guide; share: random histories over int/list variables, closures, defaults; gen: random generator bodies x 5 consumers. distinct = distinct request lines; non-trivial = bind: at least one parameter or capture, cap: defines a closure, share: calls a closure, gen: all".into();
     let drv = if args.driver.is_empty() || args.has_flag("--no-driver") { None } else { Some(Driver::spawn(&args.driver)) };
     let mut ctx = Ctx { rt: Runtime::new(), drv, rep, pending: vec![] };
     if args.extra.windows(2).any(|w| w[0] == "--plant" && w[1] == "swap-free-args") {
@@ -3694,6 +3747,25 @@ fn main() {
             ctx.rep.bump("capx:generator");
         }
         ctx.push(capx_case(&c));
+    }
+    // ---- pipe -------------------------------------------------------------------------------
+    let n_pipe = if thorough { 30000 } else { 3000 };
+    for _ in 0..n_pipe {
+        let (piped, direct, kind) = gen_pipe(&mut rng);
+        let reference = ctx.rt.run(&direct);
+        ctx.rep.bump(&format!("pipe:{}", kind.split(' ').next().unwrap_or("")));
+        ctx.rep.bump(&format!("pipe:reference-outcome={}", if reference.0.starts_with("E:") || reference.0.starts_with("PANIC") { reference.0.split(':').take(2).collect::<Vec<_>>().join(":") } else { "value".to_string() }));
+        ctx.push(Pending {
+            family: "pipe",
+            request: format!("pipe {} {}", kind, kvh::hex(piped.as_bytes())),
+            script: piped,
+            nontrivial: true,
+            expect_trace: None,
+            ast: None,
+            capx: None,
+            expect_result: Some(reference),
+            route: None,
+        });
     }
     // ---- late -------------------------------------------------------------------------------
     let n_late = if thorough { 40000 } else { 3000 };
